@@ -1,5 +1,6 @@
 import Gedcom.Model.Warnings
 import Gedcom.Model.WarningsTies
+import Gedcom.Model.WarningsSpec
 import Driver.Util
 namespace Driver
 open Gedcom Gedcom.Warn
@@ -12,6 +13,13 @@ open Gedcom Gedcom.Warn
   date := h<hex of the DATE value>   (parsed here with C04's `parseDateRange`; `h-` = empty value)
           | <d>.<m>.<y> | b<label>     (pre-classified, kept for replays of round-1 evidence)
   every date is labelled with its position in the request (0-based)
+  warnviews <d> <m> <y> <lo> <hi> <nrec> rec*   (the views and guards of Model/WarningsSpec.lean)
+    answer: for every DATE in file order `<valid><parseErr> <dayS> <dayE> <skey> <ekey>`, `;`-separated
+    (`-` when there is none), then ` | sib=<0|1> whole=<0|1> past=<0|1>`: the guards SibDates lo hi,
+    WholeDates lo hi, PastDates today of the theorems on general dates; then ` | ` and the selections of
+    the specification: for every individual `I<ptr> <estBirthS> <estDeathS>`, for every MARR node `M<fam>
+    <firstMin skey> <firstMax ekey>` over its valid dates, each selected DATE shown by its views
+    `<dayS>,<dayE>,<skey>,<ekey>` (`-` when there is none), `;`-separated
   answer: the warnings in the order of Document.Warnings(), `;`-separated, `-` when none; then, when
   some decision rests on an exact Years() tie that float64 may break either way, ` ~ ` and the
   flagged decisions (`CBBP parent child`, `OLD indi`, `MOOR fam spouse`), `;`-separated
@@ -125,8 +133,41 @@ def showWarning : Warning → String
   | .multipleSexes i n => s!"SEX {i} {n}"
   | .inverseSpouses f h w => s!"INV {f} {h} {w}"
 
+def allDates (d : Doc) : List DateV :=
+  d.flatMap fun
+    | .indi i => datesOf i.events
+    | .fam f => datesOf f.events
+
+def bit (b : Bool) : String := if b then "1" else "0"
+
+def showViews (x : DateV) : String :=
+  s!"{bit x.valid}{bit x.parseErr} {dayS x} {dayE x} {C20.skey x} {C20.ekey x}"
+
+def showSel : Option DateV → String
+  | none => "-"
+  | some x => s!"{dayS x},{dayE x},{C20.skey x},{C20.ekey x}"
+
+def showSelections (d : Doc) : String :=
+  let parts := d.flatMap fun
+    | .indi i => [s!"I{i.ptr} {showSel (C20.estBirthS i)} {showSel (C20.estDeathS i)}"]
+    | .fam f => (f.events.filter (fun e => e.kind == .marr)).map fun e =>
+        let ds := e.dates.filter DateV.valid
+        s!"M{f.ptr} {showSel (C20.firstMin C20.skey ds)} {showSel (C20.firstMax C20.ekey ds)}"
+  if parts.isEmpty then "-" else ";".intercalate parts
+
 def handleWarnings (cmd : String) (rest : List String) : Option String :=
   match cmd with
+  | "warnviews" =>
+    match rest with
+    | d :: m :: y :: lo :: hi :: toks =>
+      match d.toNat?, m.toNat?, y.toNat?, lo.toInt?, hi.toInt?, takeCount tokRec toks with
+      | some d, some m, some y, some lo, some hi, some (doc, []) =>
+        let doc := relabelRecs 0 doc
+        let ds := allDates doc
+        let line := if ds.isEmpty then "-" else ";".intercalate (ds.map showViews)
+        some (line ++ s!" | sib={bit (decide (C20.SibDates lo hi doc))} whole={bit (decide (C20.WholeDates lo hi doc))} past={bit (decide (C20.PastDates ⟨d, m, y⟩ doc))} | {showSelections doc}")
+      | _, _, _, _, _, _ => some "bad-op"
+    | _ => some "bad-op"
   | "warn" =>
     match rest with
     | d :: m :: y :: toks =>
